@@ -283,7 +283,9 @@ def dnf_cost(e, tagexprs):
     if k == "host":
         return (2 if e[1] == "host" else 1) * len(e[2]), 1
     if k == "proto":
-        return len(e[1]), 1
+        # protocol:x is NOT(flags != x) = a conjunction of three FlagConditions; its inversion before Clean is
+        # three conjuncts of three conditions again: count both polarities as 3 x 3
+        return 3 * len(e[1]), 3
     if k == "time":
         return len(e[2]), 2
     if k == "tag":
@@ -594,8 +596,9 @@ def minimise(pop, sr, kind, budget=120):
             cands.append(dict(sr, sort=sr["sort"][:i] + sr["sort"][i + 1:]))
         for x in subexprs(sr["expr"]):
             cands.append(dict(sr, expr=x, q=text_of(x)))
+        texprs = {t["name"]: t["expr"] for t in pop["tags"]}
         for c in cands:
-            if fails(pop, c):
+            if cheap(c["expr"], texprs) and fails(pop, c):
                 sr, changed = c, True
                 break
     used = set()
@@ -743,7 +746,7 @@ def main(tier, seed, replay=None):
         if why[0] in reported and len(reported) >= 1 and nviol >= 3:
             continue  # one replay per kind of failure, at most a few
         reported.add(why[0])
-        if why[0] == "status" and "MISSING" in why[1] or (why[0] == "status" and "PARSEERR" in why[1]):
+        if why[0] == "status" and ("MISSING" in why[1] or "PARSEERR" in why[1] or "SLOW" in why[1]):
             violation(PROP, {"property": PROP, "broken": "correspondence harness could not run this case against this tree",
                              "note": note, "case": why[1], "query": sr["q"]}, no_input=True)
             nviol += 1
